@@ -38,6 +38,9 @@ type Case struct {
 	Mode string   `json:"mode"`
 	Fan  []Op     `json:"fan,omitempty"`
 	Big  *BigSpec `json:"big,omitempty"`
+	// Mode "typed": the history (Ops, or the script Big) runs on another instantiation of the generic Bimap
+	// (Inst = "string,int" | "struct,string", see typed.go), Go oracle only.
+	Inst string `json:"inst,omitempty"`
 }
 
 func init() {
@@ -48,6 +51,10 @@ func replay(c *core.Ctx, raw json.RawMessage) error {
 	var cs Case
 	if err := json.Unmarshal(raw, &cs); err != nil {
 		return err
+	}
+	if cs.Mode == "typed" {
+		execTyped(c, cs)
+		return nil
 	}
 	if cs.Big != nil {
 		execBig(c, *cs.Big)
@@ -364,6 +371,10 @@ func run(c *core.Ctx) {
 	c.Note(fmt.Sprintf("large-Bimap stream: %d scripted histories checked by the Go oracle only (Bimaps built up to n pairs for n = 0..%d dense around powers of two and Go map growth points, "+
 		"every collision pattern of Add at that size, clones of clones mutated differently, teardown to empty pair by pair, reuse, Clear/Clone/Range/Len at full size; up to 1025 handles); "+
 		"%d prefixes of small instances (n = 17, 33, 65; 33 handles) also given to the model", nBig, maxBig, len(samples)))
+	// 7. other instantiations of the generic type, Go oracle only
+	nTyped := runTypedStream(c)
+	c.Note(fmt.Sprintf("other instantiations: %d histories (random over 2..8 keys/values with clones, and large-Bimap scripts up to 1025 pairs / 65 handles) on Bimap[string,int] and "+
+		"Bimap[struct{A int16; B bool},string], zero values of K and V used as real keys/values, checked by the Go oracle only", nTyped))
 	c.Exhaustive = true
 	c.Note(fmt.Sprintf("exhaustive (%d histories in %d fan cases = a prefix with all its one-operation extensions, every handle observed after the last operation): "+
 		"every history of length <= %d of Add/RemoveForward/RemoveReverse/Clear over keys {0,1} x values {0,1} on a zero-value Bimap; "+
